@@ -620,11 +620,10 @@ func (tm *TaskMaster) StopTask(id string) error {
 func (tm *TaskMaster) DeleteTask(id string) error {
 	tm.lifecycleMu.Lock()
 	defer tm.lifecycleMu.Unlock()
-	if err := tm.stopTask(id); err != nil {
-		return err
-	}
+	err := tm.stopTask(id)
+	// Run the delete hooks also for a task that stopped with an error.
 	tm.deleteTask(id)
-	return nil
+	return err
 }
 
 // internal stopTask function. The caller must hold lifecycleMu and must not hold mu.
